@@ -476,6 +476,8 @@ def run_job(job, unit, workdir, log=print):
         if und and not any(o['status'] == 'FAILURE' for o in res.obligations):
             raise Undecided('obligation status %s for %s' % (und[0]['status'], und[0]['name']))
         tot, ok, bad = res.counts()
+        if bad and mode in ('harness', 'raw') and all('.unwind.' in o['name'] for o in bad):
+            raise Undecided('only unwinding assertions failed (%s): the stated unwinding bound of this job is too small' % bad[0]['name'])
         res.status = 'pass' if not bad else 'fail'
     except Undecided as e:
         res.status = 'undecided'
@@ -543,7 +545,10 @@ def run_sweep(job, res, jd, cfile, hname, workdir, t_start):
         und = [o for o in res.obligations if o['status'] not in ('SUCCESS', 'FAILURE')]
         if und and not any(o['status'] == 'FAILURE' for o in res.obligations):
             raise Undecided('obligation status %s for %s' % (und[0]['status'], und[0]['name']))
-        res.status = 'fail' if any(o['status'] == 'FAILURE' for o in res.obligations) else 'pass'
+        fails = [o for o in res.obligations if o['status'] == 'FAILURE']
+        if fails and all('.unwind.' in o['name'] for o in fails):
+            raise Undecided('only unwinding assertions failed (%s): the stated unwinding bound of this bounded job is too small' % fails[0]['name'])
+        res.status = 'fail' if fails else 'pass'
     except Undecided as e:
         res.status = 'undecided'
         res.reason = str(e)
